@@ -188,15 +188,20 @@ func (vt *Model) cuu(ps int) {
 }
 
 // Cursur Down (CUD) CSI Ps B
-// Move cursor down in same column, stopping at bottom margin
+// Move cursor down in same column, stopping at bottom margin (or at the last
+// row when the cursor is already below the bottom margin)
 func (vt *Model) cud(ps int) {
 	vt.lastCol = false
 	if ps == 0 {
 		ps = 1
 	}
+	clamp := row(vt.height() - 1)
+	if vt.cursor.row <= vt.margin.bottom {
+		clamp = vt.margin.bottom
+	}
 	vt.cursor.row += row(ps)
-	if vt.cursor.row > vt.margin.bottom {
-		vt.cursor.row = vt.margin.bottom
+	if vt.cursor.row > clamp {
+		vt.cursor.row = clamp
 	}
 }
 
